@@ -69,8 +69,11 @@ func setPlaceholderNames(n *ast.MsgNode) {
 		var nextSuffix = 1
 		for _, node := range nodes {
 			for {
+				// (a generated name must not be the base name of another placeholder
+				// either, or one of the two would lose its name.)
 				var newName = baseName + "_" + strconv.Itoa(nextSuffix)
-				if _, ok := nameToRepNodes[newName]; !ok {
+				var _, isBaseName = baseNameToRepNodes[newName]
+				if _, ok := nameToRepNodes[newName]; !ok && !isBaseName {
 					nameToRepNodes[newName] = node
 					break
 				}
